@@ -125,6 +125,13 @@ theorem decode_sequential (t u : Ty) (a b : Bytes) (x : Val t) (y : Val u) (rest
   simp only [List.nil_append] at this
   exact ⟨this, hb⟩
 
+/-- framing for a run of `n` consecutive decodes (a stream of values without a length prefix): appended
+    bytes change neither the values read nor what is consumed. -/
+theorem decode_stream_framed (t : Ty) (n : Nat) (bs : Bytes) (vs : List (Val t)) (rest ex : Bytes)
+    (h : decList (decode t) n bs = .ok (vs, rest)) :
+    decList (decode t) n (bs ++ ex) = .ok (vs, rest ++ ex) :=
+  decList_framed (decode t) (Slicec.decode_framed t) n bs vs rest ex h
+
 /-! non-vacuity -/
 example : decode (.seq (.uint .w1)) [8, 7, 9] = .ok (([7, 9] : List Int), []) := by rfl
 example : decode (.seq (.uint .w1)) ([8, 7, 9] ++ [0xff, 0xff]) = .ok (([7, 9] : List Int), [0xff, 0xff]) := by rfl
@@ -150,3 +157,4 @@ end Slicec.C11
 #print axioms Slicec.C11.no_panic_sites
 #print axioms Slicec.C11.decode_framed
 #print axioms Slicec.C11.decode_sequential
+#print axioms Slicec.C11.decode_stream_framed
